@@ -15,6 +15,12 @@
 (*     rmdir    the whole cache directory is deleted by another process    *)
 (*     delrepo  the file is deleted from the repository (prune elsewhere)  *)
 (*     list     restic lists the file type (which clears stale entries)    *)
+(*     berr     the next download of the file from the repository fails    *)
+(*              once with a transient error (whoever downloads next)       *)
+(*     warm     another restic process (fresh Cache object on the same     *)
+(*              directory) reads the file in the standard verified way     *)
+(*              (LoadRaw / LoadBlob) - the cache is filled by somebody     *)
+(*              else, this process' per-run state is untouched             *)
 (*   so that every cache state of the statement (empty, good, stale,       *)
 (*   partially written, corrupted, cleared) x every next operation is      *)
 (*   reached.                                                              *)
@@ -39,12 +45,15 @@ AutoCached(ft) == ft \in {"index", "snapshot", "treepack"}
 OpsOf(ft) ==
   CASE ft = "index"    -> {"LoadRaw", "LoadUnpacked"}
     [] ft = "snapshot" -> {"LoadRaw", "LoadUnpacked"}
-    [] ft = "treepack" -> {"LoadBlob", "ListPack", "StreamPack", "RawRange"}
-    [] ft = "datapack" -> {"LoadBlob", "ListPack"}
+    [] ft = "treepack" -> {"LoadBlob", "ListPack", "StreamPack", "RawRange", "CheckPack"}
+    [] ft = "datapack" -> {"LoadBlob", "ListPack", "CheckPack"}
 \* RawRange is a backend-level ranged read through the cache: no hash is checked at that level
 Verified(op) == op # "RawRange"
+\* CheckPack (check --read-data, whole-pack verification) reads a cached pack when there is one but never
+\* stores a pack in the cache: after it met a damaged copy the copy is gone, the next ordinary read replaces it
+Recaches(op) == op # "CheckPack"
 
-Steps == {"load", "flip", "trunc", "rm", "rmdir", "delrepo", "list"}
+Steps == {"load", "flip", "trunc", "rm", "rmdir", "delrepo", "list", "berr", "warm"}
 
 RECURSIVE SeqsUpTo(_, _)
 SeqsUpTo(S, n) == IF n = 0 THEN {<< >>}
@@ -64,9 +73,11 @@ ScriptScenarios(n) ==
 \*   R   start a raw backend-level reader in process B
 \*   rel advance the oldest stopped download by one gate     relnew  the newest one
 \*   fail  let the oldest stopped download fail
+\*   relpost  let the oldest stopped download run to its end and stop it once more after the last byte was
+\*            consumed (the file is stored in the cache, the download call has not returned yet)
 \*   xrm / xclear / xflip   third party deletes the cached file / clears the file type / corrupts the cached file
 Starts == {"L", "M", "R"}
-Ctl    == {"rel", "relnew", "fail"}
+Ctl    == {"rel", "relnew", "fail", "relpost"}
 Ext    == {"xrm", "xclear", "xflip"}
 CountIn(s, S) == Cardinality({i \in DOMAIN s : s[i] \in S})
 Schedules(n) ==
@@ -75,7 +86,7 @@ Schedules(n) ==
       /\ s[1] \in Starts
       /\ CountIn(s, Starts) \in 2..3
       /\ CountIn(s, {"M"}) <= 1 /\ CountIn(s, {"R"}) <= 1
-      /\ CountIn(s, Ext) <= 1 /\ CountIn(s, {"fail"}) <= 1
+      /\ CountIn(s, Ext) <= 1 /\ CountIn(s, {"fail"}) <= 1 /\ CountIn(s, {"relpost"}) <= 1
       \* a control step needs somebody who may be stopped
       /\ \A i \in DOMAIN s : s[i] \in Ctl => i > 1}
 
@@ -83,13 +94,14 @@ ConcScenarios(n) ==
   [kind : {"conc"}, ftype : {"index", "snapshot", "treepack"}, init : {"absent", "good", "bad"}, schedule : Schedules(n)]
 
 \* ------------------------------------------------------------- the oracle
-\* Script record: r.res[i] = [out, cache, applied]
+\* Script record: r.res[i] = [out, cache, applied, bfault]
 \*   out     "good"  the load returned exactly the repository's bytes / blobs
 \*           "err"   the load failed
 \*           "wrong" the load returned something else without an error
 \*           "na"    not a load
 \*   cache   state of the cached file after the step: "absent" | "good" (= repository bytes) | "bad"
 \*   applied the damage step found a cached file to damage
+\*   bfault  a download failed during this step because of an earlier "berr"
 \*
 \* The fold tracks what the statement needs: is the file still in the repository, is the cached copy
 \* damaged inside the region the operation reads, did this process already use its single forget for the
@@ -107,10 +119,18 @@ StepOK(r, i, s) ==
          /\ (Verified(r.op) \/ ~s.dmg) => o.out \in {"good", "err"}
          \* nothing anywhere holds the bytes any more: the load fails
          /\ (~s.inrepo /\ before = "absent") => o.out = "err"
-         \* a corrupted / partial cached file is detected and replaced (first time in this process)
-         /\ (Verified(r.op) /\ s.dmg /\ ~s.forgot /\ s.inrepo /\ ~s.dirgone /\ AutoCached(r.ftype))
-               => (o.out = "good" /\ o.cache = "good")
+         \* a corrupted / partial cached file is detected and replaced (first time in this process; a Forget that
+         \* found nothing to delete does not count); when the fresh download itself fails the load may fail, and
+         \* an operation that never fills the cache leaves it without the damaged copy
+         /\ (Verified(r.op) /\ s.dmg /\ ~s.forgot /\ s.inrepo /\ ~s.dirgone /\ AutoCached(r.ftype) /\ ~o.bfault)
+               => IF Recaches(r.op) THEN o.out = "good" /\ o.cache = "good" ELSE o.cache # "bad"
          \* restic itself never produces a bad cached file
+         /\ (~s.dmg /\ o.cache # "bad")  \/ s.dmg
+    [] a = "warm" ->
+         \* the other process is restic too: its verified read returns the right bytes or fails and does not
+         \* produce a bad cached file (it reads its own byte range, so it need not meet the damage)
+         /\ o.out \in {"good", "err"}
+         /\ (~s.inrepo /\ before = "absent") => o.out = "err"
          /\ (~s.dmg /\ o.cache # "bad")  \/ s.dmg
     [] a = "list" ->
          \* listing drops cached files that are no longer in the repository
@@ -128,7 +148,8 @@ StepNext(r, i, s) ==
     [] a = "rm"      -> [s EXCEPT !.dmg = FALSE]
     [] a = "rmdir"   -> [s EXCEPT !.dmg = FALSE, !.dirgone = TRUE]
     [] a = "delrepo" -> [s EXCEPT !.inrepo = FALSE]
-    [] a = "list"    -> [s EXCEPT !.dmg = (s.dmg /\ o.cache = "bad")]
+    [] a \in {"list", "warm"} -> [s EXCEPT !.dmg = (s.dmg /\ o.cache = "bad")]
+    [] OTHER         -> s
 
 RECURSIVE ScriptOKFrom(_, _, _)
 ScriptOKFrom(r, i, s) ==
